@@ -50,26 +50,32 @@ XML = """<mujoco>
   <body name="a" pos="0 0 1"><joint name="a0" type="slide"/><geom name="ga" size=".1"/><site name="sa"/>
      <body name="a2" pos=".3 0 0"><joint name="a1" type="hinge"/><geom name="ga2" size=".1" pos=".1 0 0"/></body></body>
   <body name="b" pos="1 0 1"><joint name="b0" type="slide"/><geom name="gb" size=".1"/><site name="sb"/></body>
-  <body name="c" pos="2 0 1"><joint name="c0" type="slide"/><geom name="gc" size=".1"/><site name="sc"/></body>
+  <body name="c" pos="2 0 1"><joint name="c0" type="slide"/><geom name="gc" size=".1"/><site name="sc"/></body>{extra_body}
  </worldbody>
- <tendon>
-  <spatial name="sp" limited="true" range="0 5"><site site="sa"/><site site="sb"/><site site="sc"/></spatial>
-  <fixed name="fx" limited="true" range="-1 1"><joint joint="b0" coef="1"/><joint joint="c0" coef="-1"/></fixed>
-  <fixed name="fa"><joint joint="a0" coef="1"/></fixed>
- </tendon>
+ <tendon>{tendons}</tendon>
  <equality>
-  <connect body1="a" body2="b" anchor="0 0 0"/><weld site1="sa" site2="sc"/><joint joint1="b0" joint2="c0"/>
-  <tendon tendon1="sp" tendon2="fx"/><joint joint1="a0"/>
+  <connect body1="a" body2="b" anchor="0 0 0"/><weld site1="sa" site2="sc"/>{more_eq}
  </equality>
 </mujoco>"""
+TENDONS = {
+  # three trees on one tendon, a two-joint tendon, a single-tree tendon
+  "full": '<spatial name="sp" limited="true" range="0 5"><site site="sa"/><site site="sb"/><site site="sc"/></spatial><fixed name="fx" limited="true" range="-1 1"><joint joint="b0" coef="1"/><joint joint="c0" coef="-1"/></fixed><fixed name="fa"><joint joint="a0" coef="1"/></fixed>',
+  # equality stage: two tendons with two wraps each (objects -> trees symbolic there)
+  "two": '<spatial name="sp" limited="true" range="0 5"><site site="sa"/><site site="sb"/></spatial><fixed name="fx" limited="true" range="-1 1"><joint joint="b0" coef="1"/><joint joint="c0" coef="-1"/></fixed>',
+}
+MORE_EQ = '<joint joint1="b0" joint2="c0"/><tendon tendon1="sp" tendon2="fx"/><joint joint1="a0"/>'
 
 
-def build():
+EXTRA_BODY = '<body name="e" pos="3 0 1"><joint name="e0" type="slide"/><geom name="ge" size=".1"/><site name="se"/></body>'
+
+
+def build(neq=2, tendons="full", ntree=3):
+  """neq: 2 (the equalities' type / ids are symbolic in the equality stage anyway) or 5"""
   import mujoco
 
   import mujoco_warp as mjw
 
-  mjm = mujoco.MjModel.from_xml_string(XML)
+  mjm = mujoco.MjModel.from_xml_string(XML.replace("{more_eq}", MORE_EQ if neq > 2 else "").replace("{tendons}", TENDONS[tendons]).replace("{extra_body}", EXTRA_BODY if ntree == 4 else ""))
   m = mjw.put_model(mjm)
   d = mjw.make_data(mjm, nworld=1, nconmax=2, njmax=8)
   return mjm, m, d
@@ -296,7 +302,8 @@ def state_pre(S, stage):
   if stage == "sleep":
     P.append(("sleep tolerance >= 0", cmp(">=", S.tol, 0.0)))
     P.append(("0 <= nisland <= ntree", inrange(S.nisland, 0, S.ntree + 1)))
-    P.append(("trees that are asleep have no island (MuJoCo builds no constraint rows for sleeping trees)", And(*[Implies(cmp(">=", S.tree_asleep0[t], 0), Not(inrange(S.tree_island[t], 0, S.nisland))) for t in range(S.ntree)])))
+    if not getattr(S, "asleep_rows", False):
+      P.append(("trees that are asleep have no island (MuJoCo builds no constraint rows for sleeping trees)", And(*[Implies(cmp(">=", S.tree_asleep0[t], 0), Not(inrange(S.tree_island[t], 0, S.nisland))) for t in range(S.ntree)])))
   else:
     P.append(("tree_awake in {0, 1}", And(*[Or(cmp("==", x, 0), cmp("==", x, 1)) for x in S.tree_awake])))
   if stage in ("collision", "tendon", "equality", "order"):
@@ -383,10 +390,16 @@ def stage_spec(stage, S):
   raise KeyError(stage)
 
 
-def symbolic_stage(ctx, stage):
+def set_eq_types(m, eqt):
+  if eqt is not None:
+    m.eq_type.assign(np.array(eqt, dtype=np.int32))
+
+
+def symbolic_stage(ctx, stage, eqt=None):
   c28.engine_workaround()
-  mjm, m, d = build()
-  m2 = sym_model(m, STAGE_SYM_MODEL[stage])
+  mjm, m, d = build(tendons="two" if stage == "equality" else "full")
+  set_eq_types(m, eqt)
+  m2 = sym_model(m, [x for x in STAGE_SYM_MODEL[stage] if not (eqt is not None and x == "eq_type")])
   if stage == "sleep":
     m2 = dataclasses.replace(m2, opt=host.shim_dataclass(m.opt, "m.opt.", symbolic=lambda n: n == "m.opt.sleep_tolerance"))
   dsym = {"d." + x for x in STAGE_SYM_DATA[stage]}
@@ -408,6 +421,8 @@ def stage_arrays(model, m2, d2, stage):
   for owner, obj, namesl in (("m.", m2, STAGE_SYM_MODEL[stage]), ("d.", d2, STAGE_SYM_DATA[stage])):
     arrs = host.arrays_of(obj)
     for n in namesl:
+      if n not in arrs:
+        continue
       c = arrs[n].ref.cell
       if c.size:
         vals = [[kh.mval(model, x) for x in c.d0[k]] for k in range(c.ncomp)]
@@ -419,11 +434,11 @@ def stage_arrays(model, m2, d2, stage):
   return out
 
 
-def unit_stage(stage):
+def unit_stage(stage, eqt=None):
   def run(ctx):
     from mujoco_warp._src import sleep
 
-    mjm, m, d, m2, d2, S, hr = symbolic_stage(ctx, stage)
+    mjm, m, d, m2, d2, S, hr = symbolic_stage(ctx, stage, eqt)
     ctx.encode(getattr(sleep, {"sleep": "sleep", "wake": "wake", "collision": "wake_collision", "tendon": "wake_tendon", "equality": "wake_equality"}[stage]))
     pre = []
     for text, f in state_pre(S, stage):
@@ -437,7 +452,7 @@ def unit_stage(stage):
     if stage == "sleep":
       names.update({f"island{t}": S.tree_island[t] for t in range(n)})
       names["nisland"] = S.nisland
-    rp = lambda qn: (lambda model: write_and_run(ctx, qn, {"kind": "stage", "stage": stage, "arrays": stage_arrays(model, m2, d2, stage)}))
+    rp = lambda qn: (lambda model: write_and_run(ctx, qn, {"kind": "stage", "stage": stage, "eqt": eqt, "arrays": stage_arrays(model, m2, d2, stage)}))
     ctx.reach(sess, "twin:pre-state", True)
     ctx.reach(sess, "twin:two-cycle-and-awake-tree", And(cmp("==", S.tree_asleep0[0], 1), cmp("==", S.tree_asleep0[1], 0), cmp("==", S.tree_asleep0[2], -3)))
     if stage == "sleep":
@@ -452,12 +467,291 @@ def unit_stage(stage):
       ctx.prove(sess, qn, goal, guard, names=names, replay=rp(qn), desc=f"{stage}: {what}")
     obligations(ctx, sess, hr, names, rp)
 
-  return (f"stage/{stage}", run)
+  return (f"stage/{stage}" + ("" if eqt is None else "/types" + "".join(str(x) for x in eqt)), run)
+
+
+def unit_sleep_asleep_rows(ctx):
+  """sleep() when a sleeping tree still owns constraint rows (mujoco_warp builds friction / limit / equality rows for
+  sleeping trees, contacts between two sleeping bodies are filtered): its island need not contain its cycle mates"""
+  from mujoco_warp._src import sleep
+
+  stage = "sleep"
+  mjm, m, d, m2, d2, S, hr = symbolic_stage(ctx, stage)
+  ctx.encode(sleep.sleep)
+  S.asleep_rows = True
+  pre = []
+  for text, f in state_pre(S, stage):
+    ctx.assume(text)
+    pre.append(core.zbool(f))
+  n = S.ntree
+  isl = [ite(inrange(S.tree_island[t], 0, S.nisland), S.tree_island[t], -1) for t in range(n)]
+  sess = ctx.session(pre)
+  names = {f"asleep{t}": S.tree_asleep0[t] for t in range(n)}
+  names.update({f"island{t}": S.tree_island[t] for t in range(n)})
+  names["nisland"] = S.nisland
+  ctx.reach(sess, "twin:sleeping-tree-with-own-island", And(cmp("==", S.tree_asleep0[0], 1), cmp("==", S.tree_asleep0[1], 0), cmp("==", isl[1], 0), cmp("<", isl[0], 0)))
+  rp = lambda qn: (lambda model: write_and_run(ctx, qn, {"kind": "stage", "stage": stage, "asleep_rows": True, "arrays": stage_arrays(model, m2, d2, stage)}))
+  for t in range(n):
+    ctx.prove(sess, f"sleeping-link-kept/tree{t}", cmp("==", S.tree_asleep1[t], S.tree_asleep0[t]), And(cmp(">=", S.tree_asleep0[t], 0), *[Implies(cmp(">=", isl[u], 0), cmp(">=", S.tree_asleep0[u], 0)) for u in range(n)]), names=names, replay=rp(f"sleeping-link-kept/tree{t}"), desc=f"sleep() rewrites the cycle link of tree {t} although every tree with an island is already asleep (nothing falls asleep)")
+  ctx.prove(sess, "invariant", inv(S.tree_asleep1), True, names=names, replay=rp("invariant"), desc="sleep() re-links an already sleeping tree by its current island: tree_asleep is no longer a set of disjoint cycles (two sleeping trees share a successor)")
+  # the state is reachable: full simulation with the public API next to MuJoCo
+  first, hist = simulate_asleep_rows(60)
+  if first is not None:
+    dd = os.path.join(report.VERIF, "replays", PID)
+    os.makedirs(dd, exist_ok=True)
+    path = os.path.join(dd, "simulation_box_on_box_frictionloss.json")
+    with open(path, "w") as f:
+      json.dump({"property": PID, "xml": SIM_XML, "first_step_with_broken_cycles": first, "history_step_mujoco_mujocowarp": hist, "how": "checks.c29.simulate_asleep_rows(): mujoco.mj_step and mujoco_warp.step side by side, tree_asleep after every step"}, f)
+    ctx.violation("simulation/box-on-box-frictionloss", f"public API: a free box under a box on a slide joint with frictionloss; both fall asleep as the cycle {hist[first - 1][2]}, one step later mujoco_warp's tree_asleep is {hist[first][2]} (two trees point to the same successor) while MuJoCo keeps {hist[first][1]}", path)
+
+
+SIM_XML = """<mujoco><option timestep="0.005"><flag sleep="enable"/></option><worldbody>
+<geom type="plane" size="5 5 .1"/>
+<body name="r" pos="0 0 .1"><freejoint/><geom type="box" size=".2 .2 .1"/></body>
+<body name="s" pos="0 0 .3"><joint name="s0" type="slide" axis="0 0 1" frictionloss="0.01"/><geom type="box" size=".1 .1 .1"/></body>
+</worldbody></mujoco>"""
+
+
+def simulate_asleep_rows(nsteps=80):
+  """a box on a box; the upper one slides on a joint with frictionloss.  -> (first step at which tree_asleep of the real
+  mujoco_warp.step is not a set of disjoint cycles, history) or (None, history); MuJoCo's history alongside"""
+  import mujoco
+
+  import mujoco_warp as mjw
+
+  mjm = mujoco.MjModel.from_xml_string(SIM_XML)
+  mjd = mujoco.MjData(mjm)
+  m, d = mjw.put_model(mjm), mjw.make_data(mjm, nworld=1)
+  hist, first = [], None
+  for k in range(nsteps):
+    mujoco.mj_step(mjm, mjd)
+    mjw.step(m, d)
+    a, b = [int(x) for x in mjd.tree_asleep], [int(x) for x in d.tree_asleep.numpy()[0]]
+    hist.append((k, a, b))
+    if first is None and not conc(inv(b)):
+      first = k
+  return first, hist
+
+
+def unit_update(ctx):
+  """sleep.update_sleep: tree_awake, body_awake and the index lists decode tree_asleep"""
+  from mujoco_warp._src import sleep
+
+  c28.engine_workaround()
+  mjm, m, d = build()
+  dsym = {"d.tree_asleep", "d.tree_awake", "d.ntree_awake", "d.body_awake", "d.nbody_awake", "d.body_awake_ind", "d.nv_awake", "d.dof_awake_ind"}
+  d2 = host.shim_dataclass(d, "d.", symbolic=lambda n: n in dsym)
+  ctx.encode(sleep.update_sleep)
+  ctx.bound(nworld=1, ntree=int(m.ntree), nbody=int(m.nbody), nv=int(m.nv))
+  with host.HostRun(mode="exec", unroll=4) as hr:
+    sleep.update_sleep(m, d2)
+  for e in hr.events:
+    if e.kind == "launch":
+      ctx.encode(e.kernel)
+  rd = reader
+  ta = list(host.arrays_of(d2)["tree_asleep"].ref.cell.d0[0])
+  nt, nb, nv = int(m.ntree), int(m.nbody), int(m.nv)
+  btree, broot, bmocap, dbody = [[int(x) for x in a.numpy()] for a in (m.body_treeid, m.body_rootid, m.body_mocapid, m.dof_bodyid)]
+  tree_awake, body_awake = rd(d2.tree_awake), rd(d2.body_awake)
+  sess = ctx.session([core.zbool(a) for a in hr.assumes])
+  ctx.assume("tree_asleep arbitrary; threads in tid order (the index lists are compared as sets)")
+  ctx.reach(sess, "twin:one-asleep", And(cmp(">=", ta[0], 0), cmp("<", ta[1], 0)))
+  names = {f"asleep{t}": ta[t] for t in range(nt)}
+  noreplay = lambda model: (True, "decoding query: model only")
+  for t in range(nt):
+    ctx.prove(sess, f"tree_awake/{t}", cmp("==", tree_awake[t], ite(cmp("<", ta[t], 0), 1, 0)), True, names=names, replay=noreplay, desc=f"tree_awake[{t}] is not (tree_asleep[{t}] < 0)")
+  ctx.prove(sess, "ntree_awake", cmp("==", rd(d2.ntree_awake)[0], count([cmp("<", x, 0) for x in ta])), True, names=names, replay=noreplay, desc="ntree_awake is not the number of awake trees")
+  state = []
+  for b in range(nb):
+    if btree[b] < 0:
+      state.append(1 if bmocap[broot[b]] >= 0 else -1)
+    else:
+      state.append(ite(cmp("<", ta[btree[b]], 0), 1, 0))
+    ctx.prove(sess, f"body_awake/{b}", cmp("==", body_awake[b], state[b]), True, names=names, replay=noreplay, desc=f"body_awake[{b}] is not the sleep state of its tree (static: STATIC, mocap: AWAKE)")
+  nba, ind = rd(d2.nbody_awake)[0], rd(d2.body_awake_ind)
+  ctx.prove(sess, "nbody_awake", cmp("==", nba, count([cmp("!=", x, 0) for x in state])), True, names=names, replay=noreplay, desc="nbody_awake is not the number of awake + static bodies")
+  for b in range(nb):
+    ctx.prove(sess, f"body_awake_ind-lists/{b}", iff(cmp("!=", state[b], 0), Or(*[And(cmp("<", i, nba), cmp("==", ind[i], b)) for i in range(nb)])), True, names=names, replay=noreplay, desc=f"body {b} is listed in body_awake_ind[:nbody_awake] iff it is not asleep")
+  nva, dind = rd(d2.nv_awake)[0], rd(d2.dof_awake_ind)
+  dawake = [cmp("<", ta[btree[dbody[j]]], 0) for j in range(nv)]
+  ctx.prove(sess, "nv_awake", cmp("==", nva, count(dawake)), True, names=names, replay=noreplay, desc="nv_awake is not the number of dofs of awake trees")
+  for j in range(nv):
+    ctx.prove(sess, f"dof_awake_ind-lists/{j}", iff(dawake[j], Or(*[And(cmp("<", i, nva), cmp("==", dind[i], j)) for i in range(nv)])), True, names=names, replay=noreplay, desc=f"dof {j} is listed in dof_awake_ind[:nv_awake] iff its tree is awake")
+  obligations(ctx, sess, hr, names, lambda qn: noreplay)
+
+
+def unit_frozen(ctx):
+  """a sleeping tree's dofs: zero smooth force, qvel stays 0, qpos unchanged (given qvel = qacc = 0, what sleep() and the
+  compact scatter (C38) establish)"""
+  from checks import lib
+  from mujoco_warp._src import forward, types
+
+  c28.engine_workaround()
+  # _qfrc_smooth(enable_sleep=True)
+  k = forward._qfrc_smooth(True)
+  ctx.encode(k)
+  kt = lib.kernel_thread(k, unroll=2)
+  w, j = kt.tid
+  tree = kt.pre("body_treeid", kt.pre("dof_bodyid", j))
+  sess = ctx.session(kt.bg)
+  asleep = And(cmp(">=", tree, 0), cmp("==", kt.pre("tree_awake_in", w, tree), 0))
+  ctx.reach(sess, "twin:qfrc_smooth-asleep", asleep)
+  rpk = lambda kt_, loc, name, goal, env: lib.make_replay(ctx, kt_, loc, name, "goal", goal=goal, env=env)
+  ctx.prove(sess, "qfrc_smooth/zero-when-asleep", cmp("==", kt.post("qfrc_smooth_out", w, j), 0.0), asleep, names={"w": w, "dof": j, "tree": tree}, replay=rpk(kt, "mujoco_warp._src.forward:_qfrc_smooth(True)", "qfrc_smooth", "checks.c29:goal_zero", {"label": "qfrc_smooth_out", "idx": [w, j]}), desc="_qfrc_smooth: the smooth force of a dof of a sleeping tree is not 0")
+  tot = arith("+", arith("+", arith("-", kt.pre("qfrc_passive_in", w, j), kt.pre("qfrc_bias_in", w, j)), kt.pre("qfrc_actuator_in", w, j)), kt.pre("qfrc_applied_in", w, j))
+  ctx.prove(sess, "qfrc_smooth/sum-when-awake", cmp("==", kt.post("qfrc_smooth_out", w, j), tot), Not(asleep), names={"w": w, "dof": j, "tree": tree}, replay=lambda model: (True, "model only"), desc="_qfrc_smooth: an awake dof does not get passive - bias + actuator + applied")
+  # _next_velocity
+  k = forward._next_velocity
+  ctx.encode(k)
+  kt = lib.kernel_thread(k, unroll=2, alias_inout=False)
+  w, j = kt.tid
+  sess = ctx.session(kt.bg)
+  rest = And(cmp("==", kt.pre("qvel_in", w, j), 0.0), cmp("==", kt.pre("qacc_in", w, j), 0.0))
+  ctx.reach(sess, "twin:next_velocity-rest", rest)
+  ctx.prove(sess, "next_velocity/stays-zero", cmp("==", kt.post("qvel_out", w, j), 0.0), rest, names={"w": w, "dof": j}, replay=rpk(kt, "mujoco_warp._src.forward:_next_velocity", "next_velocity", "checks.c29:goal_zero", {"label": "qvel_out", "idx": [w, j]}), desc="_next_velocity: qvel of a dof with qvel = qacc = 0 becomes non-zero")
+  # contract of math.quat_integrate used below, proved on the function alone: zero velocity, unit q  =>  result == q
+  from mujoco_warp._src import math as mmath
+  from wsym.core import Vec
+
+  ctx.encode(mmath.quat_integrate)
+  q = Vec([z3.Real(f"q{i}") for i in range(4)], (4,), "quat")
+  v = Vec([z3.Real(f"v{i}") for i in range(3)], (3,), "f")
+  it, ret = kh.run(mmath.quat_integrate, [q, v, z3.Real("dt")])
+  # non-incremental solver (tactic front end): z3's incremental core is two orders of magnitude slower on this NRA query
+  sessq = ctx.session([core.zbool(a) for a in it.assumes] + [sum(c * c for c in q.c) == 1] + [c == 0 for c in v.c], tactic="default")
+  ctx.reach(sessq, "twin:quat_integrate-lemma", True)
+  ctx.prove(sessq, "lemma/quat_integrate-zero-velocity", And(*[cmp("==", r, c) for r, c in zip(ret.c, q.c)]), True, replay=lambda model: (True, "model only"), desc="quat_integrate(q, 0, dt) != q for a unit quaternion")
+  nfresh = [0]
+
+  def summary(interp, frame, args):
+    qq, vv, _ = args
+    nfresh[0] += 1
+    r = Vec([z3.Real(f"qi!{nfresh[0]}!{c}") for c in range(4)], (4,), "quat")
+    hyp = z3.And(sum(core.to_z3(c, "real") * core.to_z3(c, "real") for c in qq.c) == 1, *[core.to_z3(c, "real") == 0 for c in vv.c])
+    interp.assumes.append(z3.Implies(hyp, z3.And(*[a == core.to_z3(b, "real") for a, b in zip(r.c, qq.c)])))
+    return r
+
+  # _next_position (in place: qpos_out aliases qpos_in as in _advance)
+  k = forward._next_position
+  ctx.encode(k)
+  kt = lib.kernel_thread(k, unroll=2, alias_inout=True, cap=9, interp_kw={"summaries": {mmath.quat_integrate.key: summary}})
+  ctx.assume("_next_position: quat_integrate is replaced by its proved contract (lemma/quat_integrate-zero-velocity)")
+  w, jn = kt.tid
+  ty, qa, da = kt.pre("jnt_type", jn), kt.pre("jnt_qposadr", jn), kt.pre("jnt_dofadr", jn)
+  JT = types.JointType
+  ndof = ite(cmp("==", ty, int(JT.FREE)), 6, ite(cmp("==", ty, int(JT.BALL)), 3, 1))
+  vz = And(*[Implies(cmp("<", i, ndof), cmp("==", kt.pre("qvel_in", w, da + i), 0.0)) for i in range(6)])
+  sess = ctx.session(kt.bg + [inrange(ty, 0, 4), vz, cmp("==", kt.args["qvel_scale_in"], 1.0)])
+  ctx.assume("_next_position: the joint's dofs have qvel = 0; free / ball quaternions in qpos have unit norm (C23)")
+  ctx.reach(sess, "twin:next_position-slide", cmp("==", ty, int(JT.SLIDE)))
+  kk = z3.Int("k")
+  scalar = Or(cmp("==", ty, int(JT.SLIDE)), cmp("==", ty, int(JT.HINGE)))
+  ctx.prove(sess, "next_position/hinge-slide-unchanged", cmp("==", kt.post("qpos_out", w, qa), kt.pre("qpos_in", w, qa)), scalar, names={"w": w, "jnt": jn, "type": ty}, replay=lambda model: (True, "model only"), desc="_next_position: qpos of a hinge / slide joint with zero velocity changes")
+  ctx.prove(sess, "next_position/free-position-unchanged", cmp("==", kt.post("qpos_out", w, qa + kk), kt.pre("qpos_in", w, qa + kk)), And(cmp("==", ty, int(JT.FREE)), kk >= 0, kk < 3), names={"w": w, "jnt": jn, "k": kk}, replay=lambda model: (True, "model only"), desc="_next_position: the position of a free joint with zero velocity changes")
+  for name, jt, off in (("free", JT.FREE, 3), ("ball", JT.BALL, 0)):
+    q = [kt.pre("qpos_in", w, qa + off + c) for c in range(4)]
+    unit = cmp("==", arith("+", arith("+", arith("*", q[0], q[0]), arith("*", q[1], q[1])), arith("+", arith("*", q[2], q[2]), arith("*", q[3], q[3]))), 1.0)
+    same = And(*[cmp("==", kt.post("qpos_out", w, qa + off + c), q[c]) for c in range(4)])
+    ctx.reach(sess, f"twin:next_position-{name}-unit-quaternion", And(cmp("==", ty, int(jt)), unit))
+    ctx.prove(sess, f"next_position/{name}-quaternion-unchanged", same, And(cmp("==", ty, int(jt)), unit), names={"w": w, "jnt": jn}, replay=lambda model: (True, "model only"), desc=f"_next_position: the unit quaternion of a {name} joint with zero velocity changes")
+
+
+def goal_zero(spec, pre, post):
+  e = spec["env"]
+  v = float(np.asarray(post[e["label"]][tuple(e["idx"])]))
+  return v == 0.0, f"{e['label']}{list(e['idx'])} = {v}"
+
+
+def unit_order(ctx):
+  """_wake_collision_kernel with two contacts in both thread orders (serial execution of the two threads)"""
+  from mujoco_warp._src import sleep
+
+  c28.engine_workaround()
+  stage = "order"
+  outs = []
+  for swap in (False, True):
+    mjm, m, d = build(ntree=4)
+    m2 = sym_model(m, STAGE_SYM_MODEL[stage])
+    dsym = {"d." + x for x in STAGE_SYM_DATA[stage]}
+    d2 = host.shim_dataclass(d, "d.", symbolic=lambda n: n in dsym)
+    if swap:
+      c = d2.contact.geom.ref.cell
+      c.d = [[x[1], x[0]] for x in c.d]
+      c.d0 = [list(x) for x in c.d]
+      cw = d2.contact.worldid.ref.cell
+      cw.d = [[cw.d[0][1], cw.d[0][0]]]
+      cw.d0 = [list(x) for x in cw.d]
+    S = View()
+    with host.HostRun(mode="exec", unroll=int(m.ntree) + 2) as hr:
+      run_stage(stage, m2, d2, S, reader)
+    outs.append((S, hr, m2, d2))
+  ctx.encode(sleep.wake_collision, sleep._wake_collision_kernel, sleep._wake_tree)
+  (S, hr, m2, d2), (S2, hr2, _, _) = outs
+  ctx.bound(nworld=1, ntree=S.ntree, contacts=2, note="the two threads of the launch run as (0,1) and as (1,0)")
+  pre = []
+  for text, f in state_pre(S, stage):
+    ctx.assume(text)
+    pre.append(core.zbool(f))
+  pre.append(core.zbool(cmp("==", S.nacon, 2)))
+  ctx.assume("nacon = 2")
+  pre += [core.zbool(a) for a in list(hr.assumes) + list(hr2.assumes)]
+  sess = ctx.session(pre)
+  n = S.ntree
+  names = {f"asleep{t}": S.tree_asleep0[t] for t in range(n)}
+  for i in range(2):
+    names[f"contact{i}_geom0"], names[f"contact{i}_geom1"] = S.contact_geom[i]
+  for i, x in enumerate(S.body_treeid):
+    names[f"body_treeid{i}"] = x
+  for i, x in enumerate(S.geom_bodyid):
+    names[f"geom_bodyid{i}"] = x
+  ctx.reach(sess, "twin:two-touchers-of-one-cycle", And(cmp("==", S.tree_asleep0[0], 1), cmp("==", S.tree_asleep0[1], 0), cmp("<", S.tree_asleep0[2], 0), cmp("<", S.tree_asleep0[3], 0), cmp("!=", S.tree_asleep0[2], S.tree_asleep0[3])))
+
+  def rp(qn):
+    def _rp(model):
+      return write_and_run(ctx, qn, {"kind": "order", "arrays": stage_arrays(model, m2, d2, stage)})
+
+    return _rp
+
+  for t in range(n):
+    ctx.prove(sess, f"status-order-independent/tree{t}", iff(cmp("<", S.tree_asleep1[t], 0), cmp("<", S2.tree_asleep1[t], 0)), True, names=names, replay=rp(f"status-order-independent/tree{t}"), desc=f"whether tree {t} is awake after wake_collision depends on the order of the two contact threads")
+  for t in range(n):
+    ctx.prove(sess, f"countdown-order-independent/tree{t}", cmp("==", S.tree_asleep1[t], S2.tree_asleep1[t]), True, names=names, replay=rp(f"countdown-order-independent/tree{t}"), desc=f"the countdown of tree {t} after wake_collision depends on the order of the two contact threads (_wake_tree on a tree that another thread already woke lowers only that tree, not its former cycle)")
+
+
+def real_order(sp):
+  res = []
+  for swap in (False, True):
+    mjm, m, d = build(ntree=4)
+    for n, vals in sp["arrays"].items():
+      obj = m if n.startswith("m.") else d
+      for part in n[2:].split("."):
+        obj = getattr(obj, part)
+      a = obj.numpy()
+      v = np.array(vals).reshape(a.shape).astype(a.dtype)
+      if swap and n in ("d.contact.geom", "d.contact.worldid"):
+        v = v[::-1].copy()
+      obj.assign(v)
+    S = View()
+    run_stage("order", m, d, S, reader)
+    wp.synchronize()
+    res.append(S)
+  S, S2 = res
+  for text, f in state_pre(S, "order"):
+    if not conc(f):
+      return False, f"replay input violates precondition: {text}"
+  q = sp["query"]
+  t = int(q[-1])
+  if q.startswith("status"):
+    ok = (S.tree_asleep1[t] < 0) == (S2.tree_asleep1[t] < 0)
+  else:
+    ok = S.tree_asleep1[t] == S2.tree_asleep1[t]
+  return (not ok), f"tree_asleep {S.tree_asleep0}, contacts {S.contact_geom} (geom->body {S.geom_bodyid}, body->tree {S.body_treeid}): threads in order (0,1) give {S.tree_asleep1}, in order (1,0) give {S2.tree_asleep1}"
 
 
 def real_stage(sp):
   stage = sp["stage"]
-  mjm, m, d = build()
+  mjm, m, d = build(tendons="two" if stage == "equality" else "full")
+  set_eq_types(m, sp.get("eqt"))
   for n, vals in sp["arrays"].items():
     obj = m if n.startswith("m.") else d
     for part in n[2:].split("."):
@@ -465,16 +759,182 @@ def real_stage(sp):
     a = obj.numpy()
     obj.assign(np.array(vals).reshape(a.shape).astype(a.dtype))
   S = View()
+  S.asleep_rows = bool(sp.get("asleep_rows"))
   run_stage(stage, m, d, S, reader)
   wp.synchronize()
   for text, f in state_pre(S, stage):
     if not conc(f):
       return False, f"replay input violates precondition: {text}"
   Q = stage_spec(stage, S)
+  if sp.get("asleep_rows"):
+    for t in range(S.ntree):
+      Q[f"sleeping-link-kept/tree{t}"] = (cmp("==", S.tree_asleep1[t], S.tree_asleep0[t]), True, f"sleep() rewrites the cycle link of sleeping tree {t}")
   goal, guard, what = Q[sp["query"]]
   if not conc(guard):
     return False, "guard false on the real run"
   return (not conc(goal)), f"{what}; tree_asleep {S.tree_asleep0} -> {S.tree_asleep1} (tree_awake {S.tree_awake}, islands {S.tree_island}/{S.nisland})"
+
+
+# ------------------------------------------------------------------------------------------------ reference validation (MuJoCo)
+
+
+VALID_XML = """<mujoco><option gravity="0 0 0" timestep="0.01"><flag sleep="enable"/></option><worldbody>
+<body name="a" pos="0 0 1"><joint name="a0" type="slide" axis="1 0 0"/><geom size=".1"/><site name="sa"/></body>
+<body name="b" pos="{bx} 0 1"><joint name="b0" type="slide" axis="1 0 0"/><geom size=".1"/><site name="sb"/></body>
+<body name="c" pos="{cx} 0 1"><joint name="c0" type="slide" axis="1 0 0"/><geom size=".1"/><site name="sc"/></body>
+<body name="e" pos="{ex} 0 1"><joint name="e0" type="slide" axis="1 0 0"/><geom size=".1"/><site name="se"/></body>
+</worldbody>
+<tendon><spatial name="t" limited="true" range="0 {tr}"><site site="sb"/><site site="sc"/></spatial></tendon>
+<equality><weld name="w" body1="a" body2="e" active="{wa}"/><joint name="j" joint1="b0" joint2="e0" active="{ja}"/></equality>
+</mujoco>"""
+
+
+def mj_poke(m, d, ta):
+  """put a MuJoCo MjData into the sleep state ta consistently (what mj_updateSleep derives)"""
+  ta = np.asarray(ta)
+  d.tree_asleep[:] = ta
+  d.tree_awake[:] = (ta < 0).astype(int)
+  ba = []
+  for b in range(m.nbody):
+    t = m.body_treeid[b]
+    ba.append((1 if m.body_mocapid[m.body_rootid[b]] >= 0 else -1) if t < 0 else (1 if ta[t] < 0 else 0))
+  d.body_awake[:] = ba
+  ind = [b for b in range(m.nbody) if ba[b] != 0]
+  d.nbody_awake = len(ind)
+  d.body_awake_ind[: len(ind)] = ind
+  pind = [b for b in range(m.nbody) if b == 0 or ba[m.body_parentid[b]] != 0]
+  d.nparent_awake = len(pind)
+  d.parent_awake_ind[: len(pind)] = pind
+  dind = [j for j in range(m.nv) if ta[m.dof_treeid[j]] < 0]
+  d.nv_awake = len(dind)
+  d.dof_awake_ind[: len(dind)] = dind
+  d.ntree_awake = int((ta < 0).sum())
+  for j in range(m.nv):
+    if ta[m.dof_treeid[j]] >= 0:
+      d.qvel[j] = 0
+
+
+def mj_view(m, d, ta):
+  S = View()
+  S.ntree, S.nbody, S.nv, S.neq, S.ntendon, S.ngeom, S.nsite, S.njnt = m.ntree, m.nbody, m.nv, m.neq, m.ntendon, m.ngeom, m.nsite, m.njnt
+  for n in MODEL_INT:
+    setattr(S, n, [int(x) for x in getattr(m, n)])
+  S.dof_length = [float(x) for x in m.dof_length]
+  S.tendon_range = [tuple(float(v) for v in x) for x in m.tendon_range]
+  S.tendon_margin = [float(x) for x in m.tendon_margin]
+  S.tree_asleep0 = [int(x) for x in ta]
+  S.tree_awake = [int(x < 0) for x in ta]
+  S.qvel, S.qfrc_applied = [float(x) for x in d.qvel], [float(x) for x in d.qfrc_applied]
+  S.xfrc_applied = [[float(v) for v in x] for x in d.xfrc_applied]
+  S.naconmax, S.nacon = d.ncon, d.ncon
+  S.contact_geom = [(int(c.geom[0]), int(c.geom[1])) for c in d.contact]
+  S.contact_worldid = [0] * d.ncon
+  S.ten_length = [float(x) for x in d.ten_length]
+  S.eq_active = [bool(x) for x in d.eq_active]
+  S.tol = float(m.opt.sleep_tolerance)
+  return S
+
+
+def ref_wake_status(ta, trig):
+  """status after a wake stage: list of bools (asleep)"""
+  n = len(ta)
+  return [bool(ta[t] >= 0 and not any(conc(trig[s]) and conc(same_cycle(ta, s, t)) for s in range(n))) for t in range(n)]
+
+
+def validate_reference():
+  import mujoco
+
+  bad = []
+
+  def scene(ta, bx=1, cx=2, ex=3, tr=5, wa="false", ja="false", **kw):
+    m = mujoco.MjModel.from_xml_string(VALID_XML.format(bx=bx, cx=cx, ex=ex, tr=tr, wa=wa, ja=ja))
+    d = mujoco.MjData(m)
+    mujoco.mj_forward(m, d)
+    mj_poke(m, d, ta)
+    for k, v in kw.items():
+      getattr(d, k)[...] = v
+    return m, d
+
+  def check_forward(tag, ta, stage, full_reset, **kw):
+    m, d = scene(ta, **kw)
+    d0 = mujoco.MjData(m)
+    mujoco.mj_forward(m, d0)  # contacts / tendon lengths do not depend on the sleep state in these scenes
+    mujoco.mj_forward(m, d)
+    S = mj_view(m, d, ta)
+    S.contact_geom = [(int(c.geom[0]), int(c.geom[1])) for c in d0.contact]
+    S.naconmax = S.nacon = d0.ncon
+    S.contact_worldid = [0] * d0.ncon
+    S.ten_length = [float(x) for x in d0.ten_length]
+    trig = {"wake": triggers_wake, "collision": triggers_collision, "tendon": triggers_tendon, "equality": triggers_equality}[stage](S)
+    exp = ref_wake_status(ta, trig)
+    got = [int(x) for x in d.tree_asleep]
+    if [g >= 0 for g in got] != exp:
+      bad.append(f"{tag}: reference says asleep-after = {exp} for tree_asleep {ta}, MuJoCo gives {got}")
+    for t in range(len(ta)):
+      if ta[t] >= 0 and got[t] < 0 and full_reset and got[t] != K_AWAKE:
+        bad.append(f"{tag}: woken tree {t} has countdown {got[t]} in MuJoCo, reference says {K_AWAKE}")
+      if ta[t] >= 0 and got[t] < 0 and not (K_AWAKE <= got[t] <= -1):
+        bad.append(f"{tag}: woken tree {t} has countdown {got[t]} outside [{K_AWAKE}, -1]")
+      if ta[t] < 0 and got[t] != ta[t]:
+        bad.append(f"{tag}: awake tree {t} changed from {ta[t]} to {got[t]} in MuJoCo's forward pass")
+    return got
+
+  x = np.zeros((5, 6))
+  x[3, 2] = 1.0
+  check_forward("wake/qvel", [1, 0, 2, -5], "wake", True, qvel=[0.1, 0, 0, 0])
+  check_forward("wake/tiny-qvel", [1, 0, 2, -5], "wake", True, qvel=[1e-9, 0, 0, 0])
+  check_forward("wake/qfrc_applied", [1, 0, 2, -5], "wake", True, qfrc_applied=[0, 0.1, 0, 0])
+  check_forward("wake/xfrc_applied", [1, 0, 2, -5], "wake", True, xfrc_applied=x)
+  check_forward("wake/nothing", [1, 0, 2, -5], "wake", True)
+  check_forward("wake/three-cycle", [1, 2, 0, -5], "wake", True, qfrc_applied=[0, 0, 0.3, 0])
+  check_forward("tendon/active-one-awake", [0, 1, -5, -7], "tendon", False, tr=0.5)
+  check_forward("tendon/active-cycle", [1, 0, -3, -7], "tendon", False, tr=0.5)
+  check_forward("tendon/active-both-asleep", [0, 1, 2, -7], "tendon", False, tr=0.5)
+  check_forward("tendon/inactive", [0, 1, -5, -7], "tendon", False, tr=5)
+  check_forward("equality/weld-one-awake", [1, 0, 2, -4], "equality", True, wa="true")
+  check_forward("equality/weld-two-cycles", [1, 0, 2, 3], "equality", True, wa="true")
+  check_forward("equality/weld-same-cycle", [3, 1, 2, 0], "equality", True, wa="true")
+  check_forward("equality/joint-one-awake", [1, 0, 2, -4], "equality", True, ja="true")
+  check_forward("equality/joint-two-cycles", [1, 0, 2, 3], "equality", True, ja="true")
+  check_forward("equality/inactive", [1, 0, 2, -4], "equality", True)
+  # contacts: chain a-b-c-e of touching spheres
+  touch = dict(bx=0.19, cx=0.38, ex=0.57)
+  check_forward("collision/cycle-touched", [1, 0, -5, -11], "collision", False, **touch)
+  check_forward("collision/two-touchers", [-4, 2, 1, -9], "collision", False, **touch)
+  check_forward("collision/asleep-pair-untouched", [1, 0, -5, -11], "collision", False, bx=0.19, cx=2, ex=2.19)
+  check_forward("collision/all-awake", [-4, -2, -5, -11], "collision", False, **touch)
+  # sleep(): free-floating trees at rest: countdown -11 .. -1, then self cycles; a moving tree is reset
+  m = mujoco.MjModel.from_xml_string(VALID_XML.format(bx=1, cx=2, ex=3, tr=5, wa="true", ja="false"))
+  d = mujoco.MjData(m)
+  d.qvel[2] = 0.5
+  ta = [int(x) for x in d.tree_asleep]
+  for step in range(14):
+    mujoco.mj_step(m, d)
+    S = mj_view(m, d, ta)
+    S.tree_island, S.nisland = [int(x) for x in d.tree_island], int(d.nisland)
+    S.qacc0 = [0.0] * m.nv
+    S.tree_asleep1 = [int(x) for x in d.tree_asleep]
+    S.qvel1, S.qacc1 = S.qvel, S.qacc0
+    Q, ref = spec_sleep(S)
+    for qn, (goal, guard, what) in Q.items():
+      if qn.startswith(("zeroed", "awake-untouched")):
+        continue
+      if conc(guard) and not conc(goal):
+        bad.append(f"sleep/step{step}: MuJoCo's step {ta} -> {S.tree_asleep1} (islands {S.tree_island}/{S.nisland}) contradicts reference rule {qn}")
+    ta = S.tree_asleep1
+  if not (ta[0] >= 0 and ta[3] >= 0 and ta[2] < 0):
+    bad.append(f"sleep: expected the welded pair asleep and the moving tree awake after 14 steps, MuJoCo has {ta}")
+  elif not conc(same_cycle(ta, 0, 3)):
+    bad.append(f"sleep: welded trees 0 and 3 should share a cycle, MuJoCo has {ta}")
+  return bad
+
+
+def unit_validate(ctx):
+  bad = validate_reference()
+  ctx.notes.append("reference rules compared with mujoco 3.13 on 21 crafted sleep states (mj_forward: wake by velocity / applied force, tendon limit, weld / joint equality, contacts incl. two touchers) and a 14-step mj_step history (countdown, reset, island of a weld falls asleep as one cycle)")
+  for b in bad:
+    ctx.error("reference-model validation: " + b)
+  ctx.reach(ctx.session([]), "twin:validation-ran", True)
 
 
 # ------------------------------------------------------------------------------------------------ replay plumbing
@@ -505,7 +965,11 @@ def write_and_run(ctx, qn, sp):
 
 
 def main(tier, seed, only=None):
-  units = [unit_stage(s) for s in ("sleep", "wake", "collision", "tendon", "equality")]
+  units = [("validate-reference", unit_validate)] + [unit_stage(s) for s in ("sleep", "wake", "collision", "tendon")]
+  units.append(("stage/sleep-asleep-rows", unit_sleep_asleep_rows))
+  units += [("update_sleep", unit_update), ("frozen", unit_frozen), ("order/wake_collision", unit_order)]
+  eq_types = (EQ_CONNECT, EQ_WELD, EQ_JOINT, EQ_TENDON)
+  units += [unit_stage("equality", (a, b)) for a in eq_types for b in eq_types]
   if only:
     units = [u for u in units if any(o in u[0] for o in only)]
   return report.run_check(PID, units, tier, seed)
@@ -517,7 +981,7 @@ if __name__ == "__main__":
   if "--debug" in sys.argv:
     wp.config.mode = "debug"
     wp.config.kernel_cache_dir = os.path.join(report.VERIF, ".wpcache", "replay_debug")
-  ok_, text_ = {"stage": real_stage}[sp_["kind"]](sp_)
+  ok_, text_ = {"stage": real_stage, "order": real_order}[sp_["kind"]](sp_)
   if "--debug" in sys.argv:
     print("NOT-REPRODUCED: completed under the bounds-checked build")
     sys.exit(3)
